@@ -37,6 +37,10 @@ def gen_bench(rs, noise_allowed=True, tier="quick"):
         if k < 0.045:
             ops.append({"op": "reset_to", "frac": r.choice([0.0, 1.0, r.uniform(0, 1)])})
             continue
+        if k < 0.08 and k >= 0.07:
+            # an operation that is refused: reset to more than the capacity (ValueError); the caller carries on with the battery
+            ops.append({"op": "reset_refused", "frac": r.choice([1.0001, 1.1, 2.0])})
+            continue
         if k < 0.07:
             ops.append({"op": "roundtrip"})      # restart: the battery is saved to JSON and loaded; the sequence continues on the copy
             continue
@@ -86,6 +90,14 @@ def run_bench(sc, on_call):
             if op["op"] == "reset_to":
                 batt.reset(sc["battery"]["capacity"] * op["frac"])
                 on_call(i, op, pre, (float(batt._current_charge), float(batt.current_charging_power)), None, batt)
+                continue
+            if op["op"] == "reset_refused":
+                try:
+                    batt.reset(sc["battery"]["capacity"] * op["frac"])
+                    refused = False
+                except ValueError:
+                    refused = True
+                on_call(i, dict(op, refused=refused), pre, (float(batt._current_charge), float(batt.current_charging_power)), None, batt)
                 continue
             if op["op"] == "roundtrip":
                 batt = type(batt).from_json(batt.to_json())
